@@ -26,7 +26,11 @@ use noodles_csi::{
         index::{
             Header, ReferenceSequence,
             header::{Format, format::CoordinateSystem},
-            reference_sequence::{Bin, Metadata, bin::Chunk, index::{BinnedIndex, LinearIndex}},
+            reference_sequence::{
+                Bin, Metadata,
+                bin::Chunk,
+                index::{BinnedIndex, LinearIndex},
+            },
         },
     },
 };
@@ -34,7 +38,7 @@ use noodles_fasta::fai;
 use noodles_tabix as tabix;
 use vcore::{CaseOut, Rng, guard, rng::fnv1a};
 
-use crate::binning::{bin_count, biased_pos, bin_interval, pos, positions, vp};
+use crate::binning::{biased_pos, bin_count, bin_interval, pos, positions, vp};
 
 // ---------------------------------------------------------------------------------------------------
 // generated record streams for the indexers
@@ -286,15 +290,17 @@ pub fn arb_name(rng: &mut Rng, forbid: &[u8]) -> Vec<u8> {
     };
     let style = rng.below(4);
     (0..len)
-        .map(|_| loop {
-            let b = match style {
-                0 => rng.below(256) as u8,
-                1 => *rng.pick(b"chrXY0123456789_.-|:"),
-                2 => *rng.pick(&[0xffu8, 0x80, 0xc3, 0xa9, b'\t', b'\n', b'\r', b' ', b'#', b'@', 1, 0x7f]),
-                _ => 0x21 + rng.below(0x5e) as u8,
-            };
-            if !forbid.contains(&b) {
-                break b;
+        .map(|_| {
+            loop {
+                let b = match style {
+                    0 => rng.below(256) as u8,
+                    1 => *rng.pick(b"chrXY0123456789_.-|:"),
+                    2 => *rng.pick(&[0xffu8, 0x80, 0xc3, 0xa9, b'\t', b'\n', b'\r', b' ', b'#', b'@', 1, 0x7f]),
+                    _ => 0x21 + rng.below(0x5e) as u8,
+                };
+                if !forbid.contains(&b) {
+                    break b;
+                }
             }
         })
         .collect()
@@ -398,10 +404,6 @@ pub struct Cmp {
     pub index_part_equal: bool,
 }
 
-fn norm_header(h: Option<&Header>) -> Option<Header> {
-    h.cloned()
-}
-
 pub fn compare<I>(a: &Index<I>, b: &Index<I>, rng: &mut Rng) -> Cmp
 where
     I: csi::binning_index::index::reference_sequence::Index + PartialEq + std::fmt::Debug,
@@ -411,7 +413,7 @@ where
         c.hard.push(("geometry-changed".into(), format!("(min_shift, depth) {:?} -> {:?}", (a.min_shift(), a.depth()), (b.min_shift(), b.depth()))));
         return c;
     }
-    if norm_header(a.header()) != norm_header(b.header()) {
+    if a.header() != b.header() {
         let (ha, hb) = (a.header(), b.header());
         let class = match (ha, hb) {
             (Some(x), Some(y)) if x.reference_sequence_names() != y.reference_sequence_names() => "header-names-changed",
@@ -421,10 +423,7 @@ where
         c.hard.push((class.into(), format!("header {ha:?} -> {hb:?}")));
     }
     if a.unplaced_unmapped_record_count() != b.unplaced_unmapped_record_count() {
-        c.hard.push((
-            "unplaced-unmapped-count-changed".into(),
-            format!("{:?} -> {:?}", a.unplaced_unmapped_record_count(), b.unplaced_unmapped_record_count()),
-        ));
+        c.hard.push(("unplaced-unmapped-count-changed".into(), format!("{:?} -> {:?}", a.unplaced_unmapped_record_count(), b.unplaced_unmapped_record_count())));
     }
     let (ra, rb) = (a.reference_sequences(), b.reference_sequences());
     if ra.len() != rb.len() {
@@ -526,8 +525,7 @@ fn csi_written_loffsets(ix: &BinnedIndex, bins: &IndexMap<usize, Bin>) -> Binned
 }
 
 pub fn csi_loffset_diff_is_ancestor_minimum(a: &Index<BinnedIndex>, b: &Index<BinnedIndex>) -> bool {
-    a.reference_sequences().len() == b.reference_sequences().len()
-        && a.reference_sequences().iter().zip(b.reference_sequences()).all(|(x, y)| &csi_written_loffsets(x.index(), x.bins()) == y.index())
+    a.reference_sequences().len() == b.reference_sequences().len() && a.reference_sequences().iter().zip(b.reference_sequences()).all(|(x, y)| &csi_written_loffsets(x.index(), x.bins()) == y.index())
 }
 
 // ---------------------------------------------------------------------------------------------------
@@ -643,7 +641,6 @@ pub fn rt_crai(ix: &crai::Index, file: Option<&Path>) -> Io<crai::Index> {
 // judging one binning-index round trip
 
 pub struct Judged {
-    pub probes: u64,
     pub equal: bool,
 }
 
@@ -678,7 +675,7 @@ where
         if !c.answers.is_empty() {
             o.violation(format!("roundtrip:{kind}:equal-index-answers-differently"), format!("indexes compare equal but: {}", c.answers[0]));
         }
-        return Some(Judged { probes: c.probes, equal: true });
+        return Some(Judged { equal: true });
     }
     for (class, desc) in &c.hard {
         o.violation(format!("roundtrip:{kind}:{class}"), format!("{kind} index ({src}) after write+read: {desc}"));
@@ -695,7 +692,13 @@ where
         } else {
             let n = c.answers.len();
             let first = c.answers.iter().find(|s| !s.is_empty()).cloned().unwrap_or_default();
-            let class = if explained { "loffset-rewritten-as-minimum-over-ancestor-chain" } else if kind == "csi" { "loffsets-changed" } else { "linear-index-changed" };
+            let class = if explained {
+                "loffset-rewritten-as-minimum-over-ancestor-chain"
+            } else if kind == "csi" {
+                "loffsets-changed"
+            } else {
+                "linear-index-changed"
+            };
             o.violation(
                 format!("roundtrip:{kind}:query-answers-changed:{class}"),
                 format!(
@@ -707,7 +710,7 @@ where
             );
         }
     }
-    Some(Judged { probes: c.probes, equal: false })
+    Some(Judged { equal: false })
 }
 
 pub fn brief<I: std::fmt::Debug>(a: &Index<I>) -> String {
@@ -765,10 +768,7 @@ pub fn judge_gzi(a: &gzi::Index, back: Io<gzi::Index>, rng: &mut Rng, o: &mut Ca
             }
         }
         Io::WriteErr(e) => o.count(&format!("writer_rejections[gzi:{}]", guard::normalise_message(&e)), 1),
-        Io::ReadErr(e) => o.violation(
-            format!("roundtrip:gzi:own-output-unreadable:{}", guard::normalise_message(&e)),
-            format!("gzi index with {} entries cannot be read back: {e}", a.as_ref().len()),
-        ),
+        Io::ReadErr(e) => o.violation(format!("roundtrip:gzi:own-output-unreadable:{}", guard::normalise_message(&e)), format!("gzi index with {} entries cannot be read back: {e}", a.as_ref().len())),
         Io::Panic(sig, msg) => o.violation(format!("roundtrip:gzi:panic:{sig}"), msg),
     }
 }
@@ -883,7 +883,14 @@ pub fn judge_crai(src: &str, a: &crai::Index, back: Io<crai::Index>, o: &mut Cas
         }
         Io::WriteErr(e) => o.count(&format!("writer_rejections[crai:{}]", guard::normalise_message(&e)), 1),
         Io::ReadErr(e) => o.violation(
-            format!("roundtrip:crai:own-output-unreadable:records={}", match a.len() { 0 => "0", 1 => "1", _ => "many" }),
+            format!(
+                "roundtrip:crai:own-output-unreadable:records={}",
+                match a.len() {
+                    0 => "0",
+                    1 => "1",
+                    _ => "many",
+                }
+            ),
             format!("crai index ({src}, {} records) is written without error but crai::io::Reader::read_index fails on it: {e}; first records {:?}", a.len(), &a[..a.len().min(3)]),
         ),
         Io::Panic(sig, msg) => o.violation(format!("roundtrip:crai:panic:{sig}"), msg),
